@@ -18,14 +18,16 @@ reg(Prop('C15', [
         'exprloc_prefix / loc_prefix / cfi_prefix: the ULEB (u16 in .debug_loc) length prefix of the three embeddings reads back as the emitted length',
         'decode_written_one / decode_written: the emitted bytes decode, by an independent opcode->layout table, to exactly the built operations in their documented normal forms (lit/reg/breg short forms, dup/over, DW_OP vs DW_OP_GNU by version, v2 implicit_pointer size, deref sizes, unit offsets of typed references)',
         'branches_land / branch_write_exact: every skip/bra displacement + offset after the 3-byte op = start offset of the target operation (or the end); |disp| >= 2^15 is Err ValueTooLarge, never a wrapped displacement',
-        'entry_offset_exact / refs_need_offset / ref_fixup / fixup_resolved: typed ops, call, parameter_ref embed the unit offset and fail with UnsupportedExpressionForwardReference / UnsupportedCfiExpressionReference without it; call_ref / variable_value / implicit_pointer push one fix-up at the placeholder, which apply_fixups resolves to the target .debug_info offset',
+        'entry_offset_exact / refs_need_offset / ref_fixup / fixup_resolved: typed ops, call, parameter_ref embed the unit offset and fail with UnsupportedExpressionForwardReference / UnsupportedCfiExpressionReference without it (also for an id beyond the entries vector — reserved, never added — as gimli does since c42c00d; the model was corrected in the wrglue follow-up and the stream generates such ids); call_ref / variable_value / implicit_pointer push one fix-up at the placeholder, which apply_fixups resolves to the target .debug_info offset',
         'table_agrees_with_reader / decode_written_by_reader / branches_land_reader (composition with the C07 reader model OpDec): the independent opcode table and parse_op agree on every opcode and operand string; OperationIter over the written bytes yields the built operations in normal form; OpEval.compute_pc after each written skip/bra returns the suffix starting at the intended operation',
         'eval_layout_independent / eval_same / reader_output_wf (composition with the C07 evaluator model OpEval): the evaluator conversation (requests, pieces, value, counters, errors) depends only on the operation sequence, not on its layout; running it on the written bytes = running it on the canonical StackSpec.enc_op re-encoding with re-aimed branches, whenever that re-encoding exists (re-computed displacements fit i16)',
+        'ref_fixups_at_operands / loc_expression_in_entry / loclist_v5_fixups / loclist_v4_fixups (glue with C11/C16, Model/UnitGlueWr.v, stream c11.glue): along a laid-out expression the fix-up of the k-th operation (call_ref / variable_value / implicit_pointer) is at offsets[k]+1 with that operation\'s reference size; loc.rs write_expression inside a list entry at pos with head h appends C16\'s raw bytes (prefix p + d) and lays the operations out from pos+|h|+|p|; a whole DWARF 5 location list = C16 write_list_v5 on the raw view, split into consecutive entries each contributing exactly its fix-ups in order; the same for the DWARF 2-4 list (write_list_v4, have_base_address threaded, every rejection identical). In a DIE attribute: Properties/C11.v exprloc_attr_roundtrip (position = attribute position + prefix length + operand offset) and glue_offsets_exact / glue_ref_is_mark (unit-relative operands = offsets_exact position of the target)',
         'no_panic (+ unset_target_panics): Expression::size / write never panic on Rust-typed operands with existing branch targets and in-table entries, both build modes: no overflow, no index error, the three debug_assert_eq! hold; a target index outside the expression panics',
     ],
     explored_only=[
         'eval_same is relative to the operations the READER sees in the written bytes (normal forms); that these are the operations as built is decode_written; a direct semantics of write::Operation values (without going through bytes) is not modelled',
-        'the unit layout around the expression (DIE offsets, abbreviation codes, list headers, CIE/FDE framing) is computed by glue in ocaml/s_c15.ml for small fixed unit shapes and checked by the sharp comparison and by reading everything back with gimli\'s reader',
+        'the unit layout around the expression (DIE offsets, abbreviation codes, list headers, CIE/FDE framing) is computed by glue in ocaml/s_c15.ml for small fixed unit shapes and checked by the sharp comparison and by reading everything back with gimli\'s reader '
+        '— for stream c15.expr this is unchanged; SINCE wrglue the DIE-attribute and location-list embeddings are ALSO modelled in Coq (Model/UnitGlueWr.v: no OCaml layout arithmetic) and tied by stream c11.glue, with the theorems listed under ref_fixups_at_operands and in Properties/C11.v. Proved since: both list writers and the whole LocationListTable::write (Properties/C16.v loc_table_write_composed). Not proved: positions of the fix-ups ACROSS the lists of a table (per list they are: list_laid), which fix-up list they are appended to, CFI framing',
         'real stack depth of the recursion per entry_value nesting level (known finding, stream c15.nest)',
         'writers with symbol support (relocating writers): the model is the default Writer over EndianVec, where symbols are errors (C18 covers relocation)',
     ],
